@@ -888,7 +888,10 @@ func unop(fr *frame, instr *ssa.UnOp, x value) value {
 			}
 			return symInt{i.wrap(r, x.k, true), x.k}
 		case symFloat:
-			return symFloat{t: &Term{S: "(fp.neg " + x.t.S + ")", Sort: SFP}}
+			if v, ok := ratBinop(token.SUB, float64(0), x); ok {
+				return v
+			}
+			return symFloat{t: &Term{S: "(fp.neg " + fpTerm(x).S + ")", Sort: SFP}}
 		case int:
 			return -x
 		case int8:
@@ -1253,7 +1256,7 @@ func conv(i *interpreter, t_dst, t_src types.Type, x value) value {
 					}
 					return float64(k)
 				}
-				return symFloat{t: &Term{S: "((_ to_fp 11 53) RNE (to_real " + xs.t.S + "))", Sort: SFP}}
+				return symFloat{num: xs.t, den: 1} // exact rational view; the FP term is built lazily if ever needed
 			}
 		}
 		panic(unsupported("conversion of symbolic %s to %s", t_src, t_dst))
